@@ -148,18 +148,23 @@ def choose_backend():
         BACKEND = os.environ['VERIF_BACKEND']
         BACKEND_REASON = 'forced by VERIF_BACKEND'
         return BACKEND
+    # the probe assembles a program, so it runs in a forked child: this process must stay one that has imported
+    # bronzebeard.asm and never called it (C16's reference is forked from it)
+    def probe(factory):
+        try:
+            return bool(_canary(factory(CANARY_FILES, ['/w/c'], cwd='/w/c')))
+        except Exception:
+            return False
     try:
-        ok_sim = _canary(SimFS(CANARY_FILES, ['/w/c'], cwd='/w/c'))
-    except NeedRealBackend:
-        ok_sim = False
-    except Exception:
+        ok_sim = core.run_isolated(probe, SimFS, timeout=120)
+    except core.HarnessError:
         ok_sim = False
     if ok_sim:
         BACKEND = 'sim'
         return BACKEND
     try:
-        ok_real = _canary(RealFS(CANARY_FILES, ['/w/c'], cwd='/w/c'))
-    except Exception:
+        ok_real = core.run_isolated(probe, RealFS, timeout=120)
+    except core.HarnessError:
         ok_real = False
     if ok_real:
         BACKEND = 'real'
@@ -319,7 +324,10 @@ def run_cli(fs, argv, log, inject=None):
     try:
         with contextlib.redirect_stdout(out), contextlib.redirect_stderr(err), instrumented(log, inject, st), fixed_recursion_headroom():
             try:
-                asm.cli_main()
+                rv = asm.cli_main()
+                if rv is not None:
+                    # the installed `bronzebeard` command is the console-script launcher: sys.exit(cli_main())
+                    raise SystemExit(rv)
             except SystemExit as e:
                 c = e.code
                 if c is None or c == 0:
